@@ -1122,7 +1122,12 @@ def dt_op(inp, W):
             x0 = x[0]
             out = getattr(dtm, fn)(x0, *args, **kwargs)
             return {"out": out}
-        if inp.get("proxy"):
+        if inp.get("proxy") == "derived":
+            # the proxy was used on the vector before; then the proxy of a vector derived from it (reversed view) is used
+            getattr(x.dt, fn)(*args, **kwargs)
+            y = x[::-1]
+            out = getattr(y.dt, fn)(*args, **kwargs)
+        elif inp.get("proxy"):
             out = getattr(x.dt, fn)(*args, **kwargs)
         else:
             out = getattr(dtm, fn)(x, *args, **kwargs)
